@@ -1,5 +1,8 @@
 mod ast;
 mod choice;
+mod common;
+mod engine_t;
+mod hooks;
 mod local;
 mod model;
 mod props;
@@ -19,6 +22,7 @@ fn main() {
   }
   run::install_panic_hook();
   vtime::install();
+  hooks::install();
   let props = props::all();
   let Some(prop) = props.iter().find(|p| p.id == args[1]) else {
     eprintln!("unknown property {}", args[1]);
